@@ -548,3 +548,5 @@ M('C04', 'success-loosened', S, "            success = full_output['message'] ==
 M('C19', 'splitter-index-off-by-one', L, "			vsplit_ind = vsplit_ind - self.num_division_rules\n", "			vsplit_ind = vsplit_ind - self.num_division_rules + 1\n", 'fire', 'R19.3-splitter-choice')
 M('C19', 'event-index-encoding', L, "cell_divided = reaction_choice - self.num_reactions - self.num_volume_events + self.num_division_rules", "cell_divided = reaction_choice - self.num_reactions - self.num_volume_events", 'fire', 'R19.3-splitter-choice')
 M('C01', 'lineage-events-plain-slot', L, "propensity_destination[self.num_reactions+ind] = (<Propensity>(self.c_lineage_propensities[0][ind])).get_stochastic_volume_propensity(", "propensity_destination[self.num_reactions+ind] = (<Propensity>(self.c_lineage_propensities[0][ind])).get_volume_propensity(", 'fire', 'R1.4-iface-loop/lineage')
+M('C08', 'hidden-generator-state', R, "cdef double exponential_rv(double Lambda):", "cdef double last_uniform = 0.5\n\ncdef double exponential_rv_antithetic(double Lambda):\n    global last_uniform\n    last_uniform = 1.0 - last_uniform\n    return -1.0/Lambda*log(last_uniform)\n\ncdef double exponential_rv(double Lambda):", 'fire', 'R8.5-seed/generator-state')
+M('C10', 'queue-upper-clamp-removed', S, "        elif index >= int(self.num_cols):\n            index = self.num_cols-1\n", "", 'fire', 'R20.1-add')
